@@ -130,7 +130,7 @@ def _openNormalKlattgrid(data: str) -> Klattgrid:
     # Find sections
     sectionIndexList = _findIndicies(data, "<exists>")
 
-    sectionIndexList.append(-1)
+    sectionIndexList.append(len(data))
 
     for i in range(len(sectionIndexList) - 1):
         dataTuple = _getSectionHeader(data, sectionIndexList, i)
@@ -200,10 +200,12 @@ def _proccessContainerTierInput(sectionData: str, name: str):
         except IndexError:
             continue
         ii = masterIndexList.index(val)  # Index of the index
+        # A section ends where the next one starts (or at the end of the data);
+        # one character less would drop the last digit of its last value
         try:
-            subList.append(masterIndexList[ii + 1] - 1)
+            subList.append(masterIndexList[ii + 1])
         except IndexError:
-            subList.append(-1)
+            subList.append(len(sectionData))
 
     # Build the tier structure
     kct = KlattContainerTier(name)
